@@ -40,3 +40,111 @@ package sdf
 //@   ensures [shared-value-implies-overlap] (a[0] <= v && v <= a[1] && b[0] <= v && v <= b[1]) ==> r
 //@   ensures [overlap-implies-shared-value] r ==> (a[0] <= max(a[0], b[0]) && max(a[0], b[0]) <= a[1] && b[0] <= max(a[0], b[0]) && max(a[0], b[0]) <= b[1])
 //@ end
+
+//-----------------------------------------------------------------------------
+// C02: blend functions never remove material and are symmetric; the
+// polynomial blend adds only a bounded fillet.
+
+//@ func RoundMin$1
+//@   property C02
+//@   requires k > 0
+//@   ensures [never-removes-material] r <= min(a, b)
+//@   ensures [symmetric] r == RoundMin(k)(b, a)
+//@ end
+
+//@ func ChamferMin$1
+//@   property C02
+//@   requires k > 0
+//@   ensures [never-removes-material] r <= min(a, b)
+//@   ensures [symmetric] r == ChamferMin(k)(b, a)
+//@ end
+
+//@ func ExpMin$1
+//@   property C02
+//@   requires k > 0
+//@   ensures [never-removes-material] r <= min(a, b)
+//@   ensures [symmetric] r == ExpMin(k)(b, a)
+//@ end
+
+//@ func PolyMin$1
+//@   property C02
+//@   requires k > 0
+//@   ensures [never-removes-material] r <= min(a, b)
+//@   ensures [bounded-fillet] min(a, b) - k/4 <= r
+//@   ensures [equals-min-beyond-k] abs(a-b) >= k ==> r == min(a, b)
+//@   ensures [symmetric] r == PolyMin(k)(b, a)
+//@ end
+
+//@ func PolyMax$1
+//@   property C02
+//@   requires k > 0
+//@   ensures [never-removes-material] r >= max(a, b)
+//@   ensures [bounded-fillet] r <= max(a, b) + k/4
+//@   ensures [equals-max-beyond-k] abs(a-b) >= k ==> r == max(a, b)
+//@   ensures [symmetric] r == PolyMax(k)(b, a)
+//@   ensures [mirror-of-polymin] r == -PolyMin(k)(-a, -b)
+//@ end
+
+//-----------------------------------------------------------------------------
+// C02 / C01: matrices
+
+//@ func M44.Inverse
+//@   property C02
+//@   requires a.Determinant() != 0
+//@   ensures [right-inverse] a.Mul(r) == Identity3d()
+//@   ensures [left-inverse] r.Mul(a) == Identity3d()
+//@ end
+
+//@ func M33.Inverse
+//@   property C02
+//@   requires a.Determinant() != 0
+//@   ensures [right-inverse] a.Mul(r) == Identity2d()
+//@   ensures [left-inverse] r.Mul(a) == Identity2d()
+//@ end
+
+//@ func M22.Inverse
+//@   property C02
+//@   requires a.Determinant() != 0
+//@   ensures [right-inverse] a.Mul(r) == Identity()
+//@   ensures [left-inverse] r.Mul(a) == Identity()
+//@ end
+
+//@ func M44.MulBox
+//@   property C01
+//@   forall q v3.Vec
+//@   requires box.Contains(q)
+//@   ensures [image-of-box-point-in-result] r.Contains(a.MulPosition(q))
+//@   ensures [ordered] r.Min.X <= r.Max.X && r.Min.Y <= r.Max.Y && r.Min.Z <= r.Max.Z
+//@ end
+
+//@ func M33.MulBox
+//@   property C01
+//@   forall q v2.Vec
+//@   requires box.Contains(q)
+//@   ensures [image-of-box-point-in-result] r.Contains(a.MulPosition(q))
+//@   ensures [ordered] r.Min.X <= r.Max.X && r.Min.Y <= r.Max.Y
+//@ end
+
+//@ func Rotate3d
+//@   property C02
+//@   forall q v3.Vec
+//@   requires v.X*v.X + v.Y*v.Y + v.Z*v.Z > 0
+//@   ensures [preserves-length] r.MulPosition(q).Length2() == q.Length2()
+//@   ensures [fixes-axis] r.MulPosition(v) == v
+//@   ensures [affine-rigid] r[3] == 0 && r[7] == 0 && r[11] == 0 && r[12] == 0 && r[13] == 0 && r[14] == 0 && r[15] == 1
+//@   ensures [proper] r.Determinant() == 1
+//@ end
+
+//@ func Rotate
+//@   property C02
+//@   forall q v2.Vec
+//@   ensures [preserves-length] r.MulPosition(q).Length2() == q.Length2()
+//@   ensures [proper] r.Determinant() == 1
+//@ end
+
+//@ func Rotate2d
+//@   property C02
+//@   forall q v2.Vec
+//@   ensures [preserves-length] r.MulPosition(q).Length2() == q.Length2()
+//@   ensures [proper] r.Determinant() == 1
+//@ end
